@@ -12,6 +12,7 @@ dt codes: 0 soc, 1 soi, 2 toc, 3 toi, 4 cat (a CategoricalInstance)."""
 import itertools
 import random
 
+from core import proto
 from .common import case, guarded, ordinal_instance, weak_orders, rand_weak_order, rand_perm
 
 ID = "C11"
@@ -29,6 +30,7 @@ TRUSTED = ["(R) not verified, compared with the verified reference spw_decide on
            "is_single_peaked (ELO); is_single_peaked_axis and sp_cons_ones_matrix are mirrored (Model/SP.v)"]
 ASSUMPTIONS = ["orders are complete over the instance's alternatives, classes non-empty, axis = permutation of the "
                "alternatives (quantifier of C11); instance.orders holds distinct orders"]
+COVER_FILES = ['properties/subdomains/ordinal/singlepeaked/singlepeakedness.py', 'properties/subdomains/consecutive_ones.py']
 TIMEOUT_S = 60.0
 CHUNK = 20
 
@@ -210,7 +212,7 @@ def generate(tier, seed):
     # ---- near-axis profiles (nested structure): planted votes on a hidden axis + one vote perturbed by one or two
     #      adjacent swaps or one displaced alternative; m = 5..7, n = 3..5, strict and weak; PQ-tree (fast) against the
     #      reference on thousands of them, is_single_peaked cross-checked on the strict ones
-    nnear = 6000 if not thorough else 40000
+    nnear = 6000 if not thorough else 100000
     for i in range(nnear):
         m = 5 + i % 3
         alts = rng.sample(range(0, rng.choice([m, 12, 1000])), m)
@@ -342,6 +344,11 @@ def judge(c, r, mres):
         if mres[1] != [0, dec] or mres[2] != [0, dec]:
             return {"kind": "broken-correspondence",
                     "reason": "model: matrix/C1P reduction %r or ILP model %r differ from spw_decide %r" % (mres[1], mres[2], dec)}
+        for k, fn in (("pq", "is_single_peaked_pq_tree"), ("ilp", "is_single_peaked_ILP"), ("elo", "is_single_peaked")):
+            if k in r and r[k][0] == 1:
+                msg = proto.untext(r[k][2]) if len(r[k]) > 2 else "error code %r" % (r[k][1],)
+                return {"kind": "exception", "theorem": "spw_decide_correct",
+                        "reason": "%s raised on an in-domain instance: %s" % (fn, msg)}
         if "pq" in r and r["pq"] != [0, dec]:
             return {"kind": "mismatch", "theorem": "spw_decide_correct / sp_matrix_correct",
                     "reason": "is_single_peaked_pq_tree -> %r, reference %r" % (r["pq"], dec)}
